@@ -92,6 +92,9 @@ LINEFRAG: T.Dict[str, T.Callable[[str, str], str]] = {
     'cdef-text2':   lambda n, m: '#cmakedefine ' + n + ' ${' + m + '}${' + n + '}',
     'cdef-key':     lambda n, m: '#cmakedefine ' + n + ' ' + m,
     'cdef-hashsp':  lambda n, m: '# cmakedefine ' + n,
+    'cdef-hashsp2': lambda n, m: '#  cmakedefine ' + n + ' 1',
+    'cdef-hashtab01': lambda n, m: '#\tcmakedefine01 ' + n,
+    'cdef-indent-hashsp': lambda n, m: '  # cmakedefine ' + n + ' x',
     'cdef-0':       lambda n, m: '#cmakedefine',
     'cdef01-0':     lambda n, m: '  #cmakedefine01  ',
     'cdef-glued':   lambda n, m: '#cmakedefine' + n,
@@ -99,7 +102,8 @@ LINEFRAG: T.Dict[str, T.Callable[[str, str], str]] = {
 MESON_SAFE_LINES = ['mdef', 'mdef-hashsp', 'mdef-odd', 'mdef-indent', 'mdef-tab', 'mdef-mid', 'mdef-atname']
 MESON_RISKY_LINES = ['mdef-3tok', 'mdef-0', 'mdef-glued', 'mdef-nbsp', 'mdef-ff', 'cdef', 'cdef-hashsp']
 CMAKE_SAFE_LINES = ['cdef', 'cdef-at', 'cdef-brace', 'cdef01', 'cdef-text', 'cdef-text2']
-CMAKE_RISKY_LINES = ['cdef-key', 'cdef-hashsp', 'cdef-0', 'cdef01-0', 'cdef-glued', 'mdef']
+CMAKE_RISKY_LINES = ['cdef-key', 'cdef-hashsp', 'cdef-hashsp2', 'cdef-hashtab01', 'cdef-indent-hashsp', 'cdef-0', 'cdef01-0',
+                     'cdef-glued', 'mdef']
 
 # ---- value classes ----------------------------------------------------------------------------------
 STR_CLASSES = ['str.plain', 'str.plain', 'str.empty', 'str.blank', 'str.spaced', 'str.at-lookalike', 'str.at-self',
